@@ -325,7 +325,17 @@ def build_extra():
     C11.mixin_part(ce)
     ce.replay_pid = "C11"
     ce.only_verify = ["EnableDisableMixin.enable", "EnableDisableMixin.disable"]
-    return [c, c01, state_machine_set(), ce, resubscribe_set()]
+    # machine variables restored at boot are announced like any other change: a template subscribed before the load (core
+    # modules are created before it) must not keep the pre-load value (C15's clause P3c on load_machine_vars, bounded set;
+    # the other clauses of that function belong to C15 and are checked - and reported - there)
+    from . import C15
+    c15 = C15.build_extra()[0]
+    c15.pid = "C16m"
+    c15.replay_pid = "C15"
+    c15.only_verify = ["MachineVariables.load_machine_vars"]
+    fc = c15.fns["MachineVariables.load_machine_vars"]
+    fc.ensures = [e for e in fc.ensures if e[0].startswith("P3c")]
+    return [c, c01, state_machine_set(), ce, resubscribe_set(), c15]
 
 
 DRV = "mpf/devices/driver.py"
